@@ -26,6 +26,11 @@ TYPE_GRAPHS = {
     'self-prop': 'interface A0 {{ next: A0; a: string }}\n', 'self-array': 'type A0 = A0[];\n', 'self-paren': 'type A0 = (A0);\n', 'self-pick': "type A0 = Pick<A0, 'a'>;\n",
     'self-nonnull': 'type A0 = NonNullable<A0>;\n', 'three-cycle': 'type A0 = A1;\ntype A1 = A2;\ntype A2 = A0;\n', 'self-intersection': 'type A0 = {{ a: string }} & A0;\n',
     'key-cycle': "type K0 = K0;\ninterface P0 {{ a: string }}\ntype A0 = Pick<P0, K0>;\n",
+    # a member whose type is an indexed access leading back to it; cycles through references that carry type arguments
+    'member-self-access': "interface A0 {{ x: A0['x']; a: string }}\n", 'member-self-access-alias': "type A0 = {{ x: A0['x'] }};\n",
+    'mutual-access': "interface A0 {{ x: A1['y'] }}\ninterface A1 {{ y: A0['x'] }}\n", 'access-of-self-access': "type B0 = {{ x: B0['x']; y: string }};\ntype A0 = {{ p: B0['x'] }};\n",
+    'generic-self': 'type G0<T> = G0<T> & {{ a: T }};\ntype A0 = G0<number>;\n', 'generic-mutual': 'type G0<T> = Partial<G1<T>>;\ntype G1<T> = Required<G0<T>>;\ntype A0 = G0<string>;\n',
+    'generic-member': 'type G0<T> = number | G0<T>;\ntype A0 = G0<string>;\n', 'generic-extends': 'interface G0<T> extends G0<T> {{ a: T }}\ntype A0 = G0<number>;\n',
 }
 EDGE_DECLS = """interface Dict0 {{ [key: string]: number }}
 interface List0 {{ [index: number]: string; length: number }}
